@@ -31,6 +31,7 @@ def run(model, rep, tier):
     A(system_block, model, rep)
     A(version_gate, model, rep)
     A(document_namespace, model, rep)
+    A(writer_order, model, rep)
     from ..ctors import stored_is_used_rule
     A(stored_is_used_rule, model, rep, "R5")
 
@@ -557,3 +558,31 @@ def document_namespace(model, rep):
                           "called '%s': such a component replaces the header block and from_file() cannot read the file back" % (k, ast.unparse(dyn[0]), k),
                           "document key '%s' shared with component names" % k)
     rep.instance("R6", "system.System.save fixed document keys are not component names", "%s:%d" % (rel, save.lineno), ok, "%d fixed, %d name-keyed stores" % (len(fixed), len(dyn)))
+
+
+# ------------------------------------------------------------------------------------------------ R3 (order of the blocks)
+def writer_order(model, rep):
+    """from_file() adds the components in the order of the file and add_comp() needs the parent to exist: the writer must list every parent's
+    block before the blocks of its children.  It does so by walking the library's breadth-first successor list in the order the library
+    returns it and relying on insertion order of the dicts it fills.  Anything that re-orders on the way (sorted, reversed, set, .sort,
+    .reverse) breaks that: after a deletion the node indices are re-used, so index order is not parent-before-child order."""
+    rel = model.rel("system")
+    ok = True
+    n = 0
+    for mname in ("_get_childs_tree", "save"):
+        fn = model.own_method("System", mname)
+        if fn is None:
+            raise AnalysisError("System.%s not found" % mname)
+        if mname == "_get_childs_tree" and not any(isinstance(c, ast.Call) and isinstance(c.func, ast.Attribute) and c.func.attr == "bfs_successors" for c in ast.walk(fn)):
+            raise AnalysisError("_get_childs_tree: the breadth-first successor walk is not found")
+        for c in ast.walk(fn):
+            if not isinstance(c, ast.Call):
+                continue
+            nm = c.func.id if isinstance(c.func, ast.Name) else (c.func.attr if isinstance(c.func, ast.Attribute) else None)
+            if nm in ("sorted", "reversed", "set", "frozenset", "sort", "reverse", "shuffle"):
+                ok = False
+                rep.violation("R3", "system.System.%s" % mname, "%s:%d" % (rel, c.lineno),
+                              "the writer re-orders with %s(): the blocks of the saved document no longer follow the breadth-first walk (parent before child) that "
+                              "from_file() needs; node indices are re-used after deletions, so any other order can list a child first" % nm, "writer order " + nm)
+        n += 1
+    rep.instance("R3", "system.System.save lists parents before children (traversal order kept)", "%s:%d" % (rel, model.own_method("System", "save").lineno), ok, "%d functions" % n)
